@@ -71,7 +71,11 @@ func (i *Ignore) IsIncluded(path string, index *Index) bool {
 			target = fmt.Sprintf("%s/", path)
 		}
 	}
-	for _, exFile := range i.paths {
+	for n, exFile := range i.paths {
+		if n == 0 {
+			// the built-in rule is about Goit's own directory at the top of the repository only
+			exFile = "^" + exFile
+		}
 		exRegexp := regexp.MustCompile(exFile)
 		if exRegexp.MatchString(target) {
 			return true
